@@ -18,6 +18,7 @@ type Scope struct {
 	entry map[string]Val    // entry values of parameters (x0 / old(x))
 	pkg   *types.Package    // for resolving package-level names
 	cells bool              // resolve names of local variables of fr
+	loopAlloc Term          // allocation counter at the entry of the enclosing loop
 	nquant int
 }
 
@@ -403,7 +404,23 @@ func (fr *Frame) evalSel(sc *Scope, x *ESel) Val {
 		}
 	}
 	v := fr.evalExpr(sc, x.X)
-	return fr.selectField(sc, v, x.Name, ExprString(x))
+	r := fr.selectField(sc, v, x.Name, ExprString(x))
+	fr.assumeWFSpec(sc, r)
+	return r
+}
+
+// assumeWFSpec: a value read from the heap inside a contract expression is well-formed in
+// the state it was read from (only stated when the term has no bound variable).
+func (fr *Frame) assumeWFSpec(sc *Scope, v Val) {
+	if v.K != KNormal {
+		return
+	}
+	for _, c := range v.C {
+		if strings.Contains(c.S, "!q") {
+			return
+		}
+	}
+	fr.assumeWF(sc.st, v)
 }
 
 func (fr *Frame) selectField(sc *Scope, v Val, name string, what string) Val {
@@ -742,6 +759,14 @@ func (fr *Frame) evalCall(sc *Scope, x *ECall) Val {
 			cfail("fresh() needs a pre-state")
 		}
 		return scalar(boolT, And(Not(Eq(v.C[0], Nil)), fr.isFreshSince(fr.refOf(v), sc.old.alloc)))
+	case "loopFresh":
+		// loopFresh(x): x's object was allocated after the enclosing loop was entered
+		argn(1)
+		v := fr.evalExpr(sc, x.Args[0])
+		if sc.loopAlloc.S == "" {
+			cfail("loopFresh() outside a loop clause")
+		}
+		return scalar(boolT, And(Not(Eq(v.C[0], Nil)), fr.isFreshSince(fr.refOf(v), sc.loopAlloc)))
 	case "allocated":
 		argn(1)
 		v := fr.evalExpr(sc, x.Args[0])
@@ -784,6 +809,11 @@ func (fr *Frame) evalCall(sc *Scope, x *ECall) Val {
 			cfail("unknown type in ptrOf")
 		}
 		return scalar(types.NewPointer(t), v.C[1])
+	case "dynNonNil":
+		// dynNonNil(x): the interface value x is not nil and does not hold a nil pointer
+		argn(1)
+		v := fr.evalExpr(sc, x.Args[0])
+		return scalar(boolT, And(Not(Eq(v.C[0], IntT(0))), Not(Eq(v.C[1], Nil))))
 	case "has":
 		// has(m, k): key present in map
 		argn(2)
@@ -872,7 +902,7 @@ func (fr *Frame) applySpec(sc *Scope, sf *SpecFunc, x *ECall) Val {
 	var args []Val
 	for i, a := range x.Args {
 		v := fr.evalExpr(sc, a)
-		if t := fr.resolveType(sc, mustParseType(sf.PTypes[i])); t != nil {
+		if t := fr.resolveTypeStr(sc, sf.PTypes[i]); t != nil {
 			v = fr.coerceTo(v, t)
 			if v.K == KNormal && len(v.C) == 1 && isInteger(t) && sortWidth(v.C[0].Sort) > 0 {
 				v = fr.convertVal(v, t)
@@ -892,7 +922,7 @@ func (fr *Frame) applySpec(sc *Scope, sf *SpecFunc, x *ECall) Val {
 		return fr.evalExpr(&n, sf.Body)
 	}
 	// uninterpreted
-	rt := fr.resolveType(sc, mustParseType(sf.RType))
+	rt := fr.resolveTypeStr(sc, sf.RType)
 	if rt == nil {
 		cfail("unknown result type %s of spec function %s", sf.RType, sf.Name)
 	}
@@ -908,6 +938,15 @@ func (fr *Frame) applySpec(sc *Scope, sf *SpecFunc, x *ECall) Val {
 	rs := fr.en.layout(rt)[0].Sort
 	f := fr.ctx.Func("spec:"+sf.Name, sorts, rs)
 	return scalar(rt, app(rs, f, ts...))
+}
+
+// resolveTypeStr resolves a simple type name; composite types ([]T, *T) give nil (no coercion).
+func (fr *Frame) resolveTypeStr(sc *Scope, s string) types.Type {
+	e, err := ParseExpr(s)
+	if err != nil {
+		return nil
+	}
+	return fr.resolveType(sc, e)
 }
 
 func mustParseType(s string) Expr {
